@@ -12,7 +12,10 @@
      Side condition: no reward-weight snapshot of this validator and asset at the current height
      (a weight change earlier in the same block): then the claim replays that snapshot against the
      delegation's new history; that it adds nothing needs monotonicity of the indices, not proved.
-   The pro-rata split and non-retroactivity are checked by check_C13 on implementation traces
+   - pro rata: the index increments AddAssetsToRewardPool computes are exactly the stated formula
+     (C13_reward_index_formula).
+   The split on implementation traces (clause 7: increments of two live assets in the ratio
+   weight/total), non-retroactivity for redelegated / reduced positions are checked by check_C13
    (nothing claimable right after a claim, for a new position, or for a position just topped
    up / reduced / redelegated) and by exact correspondence of indices, histories and payouts
    (partial). *)
@@ -74,6 +77,21 @@ Theorem C13_topped_up_position_has_nothing_to_claim : forall h del v dn amt d s'
   end.
 Proof. exact topped_up_position_has_nothing_to_claim. Qed.
 Print Assumptions C13_topped_up_position_has_nothing_to_claim.
+
+(* pro rata: AddAssetsToRewardPool raises, for every live (started, staked, non-zero) asset a and every coin
+   of the reward, the index of (coin denom, a) by  amount x share(a) / tokens of a on V  with
+   share(a) = srw(a) / sum over the live assets of srw, srw(a) = weight(a) x tokens(a on V) / total(a):
+   exactly this double fold over the old history, nothing else (any state) *)
+Theorem C13_reward_index_formula : forall v vi coins s,
+  (length (vi_dshares vi) =? 0)%nat = false ->
+  let live := filter (fun a => negb (skip_rewards (now s) a vi)) (map snd (assets s)) in
+  fold_left (fun acc b => acc + srw vi b) live 0 <> 0 ->
+  match add_assets_to_reward_pool v vi coins s with
+  | Ok vi' _ => vi_hist vi' = new_history vi live coins
+  | _ => True
+  end.
+Proof. exact reward_index_formula. Qed.
+Print Assumptions C13_reward_index_formula.
 
 (* the entitlement of any position whose history is its validator's current one is nothing *)
 Theorem C13_settled_position_has_nothing_to_claim : forall s v d vi a,
